@@ -24,6 +24,9 @@ import tsm                                                            # noqa: E4
 assert os.path.abspath(txtorcon.__file__).startswith(os.path.abspath(REPO)), txtorcon.__file__
 
 
+NONCIRC = [0]
+
+
 @implementer(IStreamAttacher)
 class Scripted(object):
     """answers as the stimulus script says"""
@@ -123,7 +126,9 @@ class Run(object):
         if ans == "dna":
             return TorState.DO_NOT_ATTACH
         if ans == "noncirc":
-            return "not a circuit"
+            # something that is not a circuit, of whatever truth value
+            NONCIRC[0] += 1
+            return ["not a circuit", 0, "", [], False, {}, 7, ()][NONCIRC[0] % 8]
         if ans == "unknown":
             return self.unknown
         cid = 1 if ans == "c1" else 2
